@@ -140,6 +140,10 @@ fn main() {
                     return Action::ReplyClose(r.lock().unwrap().clone());
                 }
                 Action::Reply(r.lock().unwrap().clone())
+            } else if m.method() == "CONNECT" {
+                // a metadata host is no tunnel end point: it refuses CONNECT (what the proxy's HTTP stack does with a 2xx
+                // answer to CONNECT is outside the host behaviours the statement lists; see DESIGN.md section 9)
+                Action::Reply(vec![simple_response(405, &[("Allow", "GET, POST, PUT")], b"")])
             } else {
                 Action::Reply(vec![simple_response(200, &[], b"ok")])
             }
@@ -222,6 +226,10 @@ fn main() {
             ("two-hosts", b"GET /plain HTTP/1.1\r\nHost: a\r\nHost: b\r\n\r\n".to_vec()),
             ("no-headers-post", b"POST /plain HTTP/1.1\r\nContent-Length: 0\r\n\r\n".to_vec()),
             ("options-star", b"OPTIONS * HTTP/1.1\r\nHost: h\r\n\r\n".to_vec()),
+            ("connect-authority-form", b"CONNECT 168.63.129.16:80 HTTP/1.1\r\nHost: 168.63.129.16:80\r\n\r\n".to_vec()),
+            ("connect-authority-form-no-host", b"CONNECT metadata:443 HTTP/1.1\r\n\r\n".to_vec()),
+            ("absolute-form", b"GET http://168.63.129.16/plain?x=1 HTTP/1.1\r\nHost: 168.63.129.16\r\n\r\n".to_vec()),
+            ("absolute-form-exempt-upload", b"PUT http://168.63.129.16/vmAgentLog HTTP/1.1\r\nHost: 168.63.129.16\r\nContent-Length: 1\r\n\r\nx".to_vec()),
         ] {
             cases.push((json!({"kind": "unusual-but-valid-request", "shape": label}), Case::Request { label: label.into(), raw }));
         }
@@ -370,7 +378,7 @@ fn main() {
                 env.w.set_rules(IMDS, Some(item));
                 let pid = env.w.spawn_proc("/usr/bin/vt-app", &["rules"], Some(1001));
                 let rec = AuditRec::to(IMDS, 1001, pid, false);
-                for url in ["/a/x", "/a/b?k=v", "/c", "/zzz"] {
+                for url in ["/a/x", "/a/b?k=v", "/c", "/zzz", "/a/b?k=100%", "/a/b?k=%2", "/a/b?k=%zz%", "/a/b?k=%", "/a/b?k", "/a/b?k=%ff%fe", "/a/b?=&&k=&", "/a/b?K=%C3"] {
                     let raw = build_request("GET", url, &[("Host", b"h"), ("Metadata", b"true")], None, None);
                     got_response = Some(env.request(&rec, &raw));
                 }
@@ -473,7 +481,7 @@ fn main() {
     res.cov("distinct_nontrivial", nontrivial.len() as u64);
     res.cov("panics_recorded", panics_total);
     res.cov("exhaustive", true);
-    res.cov("rule", "caller command lines/exe names made of 2-, 3- and 4-byte UTF-8 characters behind 0..w-1 ASCII bytes (every alignment against the byte-offset cuts at 512/1024/4096) x allowed/denied; callers whose executable path is not valid UTF-8 (directory, file name, both); requests with each header-value byte (0x09, 0x7f, 0x80..0xff; quick: 6 representatives) single and repeated, URLs/queries of 1000..65000 bytes, 90 repeated headers, a 30000-byte header value, requests without / with an empty / with two Host headers, HTTP/1.0, OPTIONS *; host replies to the key keeper's status poll over 9 content types x bodies (empty, 1-3 bytes, valid, multi-byte bodies at every alignment) x content-length / chunked with a 1- or 3-byte first chunk (odd UTF-16 frames) / a declared Content-Length of 2^63 or 2^40 with the connection closed; 16 rule documents with dangling, duplicate, missing and empty names in force while matching requests arrive; wake-up notifications to the key keeper at every 0.125 ms offset across its poll interval; the cases run in a supervised child process, so a death of the whole process (abort, allocation failure) is attributed to the case in progress; after every case: no panic anywhere in the process, the request got an HTTP response, and listener, /provision, key keeper and status task are still live".to_string());
+    res.cov("rule", "caller command lines/exe names made of 2-, 3- and 4-byte UTF-8 characters behind 0..w-1 ASCII bytes (every alignment against the byte-offset cuts at 512/1024/4096) x allowed/denied; callers whose executable path is not valid UTF-8 (directory, file name, both); requests with each header-value byte (0x09, 0x7f, 0x80..0xff; quick: 6 representatives) single and repeated, URLs/queries of 1000..65000 bytes, 90 repeated headers, a 30000-byte header value, requests without / with an empty / with two Host headers, HTTP/1.0, OPTIONS *, CONNECT (authority-form), absolute-form targets; query values with truncated / invalid percent escapes while rules with query parameters are in force; host replies to the key keeper's status poll over 9 content types x bodies (empty, 1-3 bytes, valid, multi-byte bodies at every alignment) x content-length / chunked with a 1- or 3-byte first chunk (odd UTF-16 frames) / a declared Content-Length of 2^63 or 2^40 with the connection closed; 16 rule documents with dangling, duplicate, missing and empty names in force while matching requests arrive; wake-up notifications to the key keeper at every 0.125 ms offset across its poll interval; the cases run in a supervised child process, so a death of the whole process (abort, allocation failure) is attributed to the case in progress; after every case: no panic anywhere in the process, the request got an HTTP response, and listener, /provision, key keeper and status task are still live".to_string());
     res.assume("a panic is attributed to the case during or directly after which it is recorded");
     std::process::exit(res.finish());
 }
